@@ -61,6 +61,7 @@ class Obligation:
     detail: str = ""
     witness: object = None
     model_text: str = ""
+    path_labels: tuple = ()
 
 
 _QCACHE = {}
@@ -436,7 +437,8 @@ class State:
             open(os.path.join(d, fn + ".smt2"), "w").write(sd.to_smt2())
         dt = time.time() - t
         self.solver_time += dt
-        self.obligations.append(Obligation(name, kind, status, backend, dt, self.path_sig(), detail, wit, mtxt))
+        self.obligations.append(Obligation(name, kind, status, backend, dt, self.path_sig(), detail, wit, mtxt,
+                                           tuple(self.labels) if status != "discharged" else ()))
         if not assume_after:
             return status == "discharged"
         if status != "discharged" and z3.is_expr(f):
